@@ -88,6 +88,11 @@ def strip_all(n):
     return n
 
 
+def in_macro(n, name):
+    """node stems from an expansion of macro `name` (directly or nested in another macro)"""
+    return n.get("m") == name or name in n.get("mc", ())
+
+
 def is_call(n):
     return n.get("k") in CALL_KINDS
 
